@@ -2,7 +2,7 @@
 from world import amounts, specials
 
 ID = "C03"
-LEAN_MODULES = ["QtyModel.Props.C03", "QtyModel.Props.Backends", "QtyModel.Props.OracleSound", "QtyModel.Props.TieConv", "QtyModel.Props.TieArith", "QtyModel.Props.TieKindsRef"]
+LEAN_MODULES = ["QtyModel.Props.C03", "QtyModel.Props.Backends", "QtyModel.Props.OracleSound", "QtyModel.Props.TieConv", "QtyModel.Props.TieAddSub", "QtyModel.Props.TieDiv", "QtyModel.Props.TieKindsRefAddSub", "QtyModel.Props.TieKindsRefDiv"]
 HARNESS_GROUPS = ()
 RULE = ("every ordered unit pair of every quantity type with a reference unit x amount pairs x ops add/sub/div; "
         "oracle = result unit, same-unit exactness, exact-rational bounds for mixed units; "
